@@ -11,7 +11,8 @@ EXTENDS Json, IOUtils, TLC, Sequences, Naturals
 
 Rec == ndJsonDeserialize(IOEnv.TRACE)
 
-VARIABLES l, bad
+VARIABLES l, bad,
+          regs     \* the specification's own register file: name -> value (records tagged by t)
 
 MaxBad == 6
 Note(ok, e, why) ==
@@ -21,7 +22,12 @@ Note(ok, e, why) ==
 Has(e, f) == f \in DOMAIN e
 NoPanic(e) == e.panic = ""
 
-BaseInit == l = 1 /\ bad = <<>>
+BaseInit == l = 1 /\ bad = <<>> /\ regs = <<>>
+
+NoneVal == [t |-> "none"]
+SetReg(n, v) == regs' = (n :> v) @@ regs
+SetRegs(ns, vs) == regs' = [n \in {ns[i] : i \in 1..Len(ns)} |-> vs[CHOOSE i \in 1..Len(ns) : ns[i] = n /\ \A j \in (i+1)..Len(ns) : ns[j] # n]] @@ regs
+IsNone(n) == regs[n].t = "none"
 
 \* always-true invariant: prints the verdict once, in the final state
 Report == (l = Len(Rec) + 1) =>
